@@ -187,7 +187,7 @@ def grouped(m):
 
 
 def o_ssr(case):
-    comb, orb, clk, idbits, nob, ncb = pins.SSR_TRIPLES[case["triple"]]
+    comb, orb, clk, idbits, nid, nob, ncb = pins.SSR_TRIPLES[case["triple"]]
     nb = nob + ncb - idbits
     B = case["block"] & ((1 << nb) - 1)
     orbit_bits = B >> (nb - nob)
@@ -197,15 +197,43 @@ def o_ssr(case):
     gc = grouped(parse(with_block(comb, B, nb)))
     go = grouped(parse(with_block(orb, orbit_bits, nob)))
     gk = grouped(parse(with_block(clk, clock_bits, ncb)))
-    want = go + gk[1:]
-    if gk[:1] != go[:1]:
-        raise Fail("ssr-satellite-id", f"{orb}/{clk}: satellite ID decodes differently: {go[:1]} vs {gk[:1]}")
+    want = go + gk[nid:]
+    if gk[:nid] != go[:nid]:
+        raise Fail("composite-shared-prefix", f"{orb}/{clk}: the shared leading fields decode differently: {go[:nid]} vs {gk[:nid]}")
     if [v for _, v in gc] != [v for _, v in want]:
         pos = next(i for i, (a, b) in enumerate(zip(gc, want)) if a[1] != b[1]) if len(gc) == len(want) else -1
-        raise Fail("ssr-combined-block-values", f"{comb} block != {orb} block ++ {clk} block: position {pos}: {gc[pos] if pos >= 0 else len(gc)} vs {want[pos] if pos >= 0 else len(want)}; block {B:#x}")
+        raise Fail("composite-block-values", f"{comb} block != {orb} block ++ {clk} block: position {pos}: {gc[pos] if pos >= 0 else len(gc)} vs {want[pos] if pos >= 0 else len(want)}; block {B:#x}")
     if [k for k, _ in gc] != [k for k, _ in want]:
-        raise Fail("ssr-combined-block-names", f"{comb} names {[k for k, _ in gc]} != {orb}++{clk} names {[k for k, _ in want]}")
+        raise Fail("composite-block-names", f"{comb} names {[k for k, _ in gc]} != {orb}++{clk} names {[k for k, _ in want]}")
     return Res(nontrivial=B != 0, classes=[comb[:4]], evals=3)
+
+
+def o_parallel(case):
+    group = pins.PARALLEL[case["group"] % len(pins.PARALLEL)]
+    ref = None
+    for ident, idbits, nb in group:
+        rest = nb - idbits
+        B = case["block"] & ((1 << rest) - 1)
+        sat = case["sat"] & ((1 << idbits) - 1)
+        g = grouped(parse(with_block(ident, (sat << rest) | B, nb)))
+        vals = [v for _, v in g[1:]]
+        if g[0][1] != sat:
+            raise Fail("parallel-satellite-id", f"{ident}: satellite ID decodes to {g[0][1]}, bits hold {sat}")
+        if ref is None:
+            ref = (ident, vals)
+        elif vals != ref[1]:
+            d = next((i for i, (a, b) in enumerate(zip(vals, ref[1])) if a != b), None)
+            raise Fail("parallel-block-values", f"{ident} decodes the same block bits differently from {ref[0]}: field {d + 1 if d is not None else '?'}: {g[d + 1] if d is not None else len(vals)} vs {ref[1][d] if d is not None else len(ref[1])}; block {B:#x}")
+    return Res(nontrivial=case["block"] != 0, classes=[group[0][0]], evals=len(group))
+
+
+def s_parallel(tier):
+    return st.builds(
+        lambda g, b, sat: {"group": g, "block": b, "sat": sat},
+        st.integers(0, len(pins.PARALLEL) - 1),
+        st.one_of(st.integers(0, 2**200 - 1), st.sampled_from([0, 2**200 - 1]), st.integers(0, 199).map(lambda k: 1 << k)),
+        st.integers(0, 63),
+    )
 
 
 def s_ssr(tier):
@@ -339,6 +367,7 @@ SUBS = [
     Sub("structure", o_struct, enum=e_struct, exhaustive=True, rule="every identity of the tables and of the pinned roster (complete)", need={"has-groups": 1}),
     Sub("standard_lengths", o_len, plan=plan_len, rule="repeat counts not all zero; distinct by (identity, payload)", need={"counts>0": 1}, sample=_short),
     Sub("ssr_combined_equals_orbit_plus_clock", o_ssr, strategy=s_ssr, examples=(200, 3000), rule="block bits not all zero", sample=_short),
+    Sub("parallel_messages_share_layout", o_parallel, strategy=s_parallel, examples=(200, 3000), rule="block bits not all zero", sample=_short),
     Sub("extended_contains_basic", o_ext, strategy=s_ext, examples=(150, 2000), rule="block bits not all zero", sample=_short),
     Sub("msm_one_layout_per_level", o_msm_family, plan=plan_msm_family, shards=(7, 7), rule="NCell > 0", sample=_short),
     Sub("igs_one_layout_per_subtype", o_igs_family, plan=plan_igs_family, shards=(7, 7), rule="more than 12 attributes", sample=_short),
